@@ -8,7 +8,8 @@
 (*                   mandatory key is present, its value is None)                        *)
 (*          cond   in {Absent, CondNone} \cup -1..n        key 'conditional_on'          *)
 (*          params in {"Absent", "Exact", "MissingOne", "UnknownName",                   *)
-(*                     "FixedAndDependent", "DepUnknownParam", "DepMisspeltOption"}      *)
+(*                     "FixedAndDependent", "DepUnknownParam", "DepMisspeltOption",      *)
+(*                     "EntryNone", "EntryNumber"}  (an entry that is None / a number)   *)
 (*                     key 'parameters' (the last two: a dependence function built with  *)
 (*                     a keyword that is neither an option nor a parameter of its func)  *)
 (*          extra  in BOOLEAN                              an unknown key                *)
@@ -149,7 +150,7 @@ Documented == {"ValueError", "TypeError", "RuntimeError", "NotImplementedError"}
 M(name, pos) == [name |-> name, pos |-> pos]
 CondNames == {"CondSelf", "CondLater", "CondNonexistent", "CondNegative", "FirstConditional"}
 ParamNames == {"CondNoParams", "ParamMissingOne", "ParamUnknownName", "ParamFixedAndDependent",
-               "ParamDepUnknownParam", "ParamDepMisspeltOption"}
+               "ParamDepUnknownParam", "ParamDepMisspeltOption", "ParamEntryNone", "ParamEntryNumber"}
 UncondParamNames == {"ParamsNoCond", "ParamsNoCondUnknown"}       \* 'parameters' on an unconditional variable
 SlicerNames == {"SlicerUnknownKwarg", "SlicerUnknownRef", "SlicerRefWrongType", "SlicerTooFew",
                 "SlicerRangeAboveData"}
@@ -224,6 +225,8 @@ ApplyOne(c, m) ==
       [] m.name = "ParamFixedAndDependent" -> [c EXCEPT !.dims[i].params = "FixedAndDependent"]
       [] m.name = "ParamDepUnknownParam" -> [c EXCEPT !.dims[i].params = "DepUnknownParam"]
       [] m.name = "ParamDepMisspeltOption" -> [c EXCEPT !.dims[i].params = "DepMisspeltOption"]
+      [] m.name = "ParamEntryNone"   -> [c EXCEPT !.dims[i].params = "EntryNone"]     \* neither fixed nor dependent (D107)
+      [] m.name = "ParamEntryNumber" -> [c EXCEPT !.dims[i].params = "EntryNumber"]   \* a number is not a dependence function
       [] m.name = "ParamsNoCond"     -> [c EXCEPT !.dims[i].params = "Exact"]
       [] m.name = "ParamsNoCondUnknown" -> [c EXCEPT !.dims[i].params = "UnknownName"]
       [] m.name = "CondNoneParams"   -> [c EXCEPT !.dims[i].cond = CondNone, !.dims[i].params = "Exact"]
@@ -264,7 +267,8 @@ AllNames == <<"CondSelf", "CondLater", "CondNonexistent", "CondNegative", "First
               "TpdfSurplus", "MpdfNaN", "MpdfInf", "McdfNaN", "McdfInf", "MicdfNaN", "MicdfInf", "CcdfNaN",
               "CcdfInf", "CcdfGivenNaN", "CcdfGivenInf", "CicdfNaN", "CicdfInf", "CicdfGivenNaN",
               "CicdfGivenInf", "TpdfNaN", "TpdfInf", "FitUnknownKey", "FitUnknownKeyPlus",
-              "ParamDepUnknownParam", "ParamDepMisspeltOption", "DistributionNone", "FitMethodNone">>
+              "ParamDepUnknownParam", "ParamDepMisspeltOption", "DistributionNone", "FitMethodNone",
+              "ParamEntryNone", "ParamEntryNumber">>
 Idx(name) == CHOOSE k \in 1..Len(AllNames) : AllNames[k] = name
 Key(m) == IF m.name = "CondNoneParams" THEN m.pos ELSE 10 * Idx(m.name) + m.pos   \* cond-type first
 
@@ -340,6 +344,8 @@ ConstructExc(c, hc, sc) ==
                              \* deviation: "fixed" tested by truth value, so a parameter fixed at zero is not seen
                              /\ ~(sc = "falsyfixed" /\ c.dims[i].params = "FixedAndDependent"
                                   /\ c.ctx.fixval # "nonzero")
+                             \* deviation (before D107): an entry that is None / a number passes the constructor
+                             /\ ~(sc = "entryaccepted" /\ c.dims[i].params \in {"EntryNone", "EntryNumber"})
          THEN "ValueError"                                                      \* ConditionalDistribution
     ELSE IF IsCond(c.dims[1]) THEN "RuntimeError"                                \* first dimension
     ELSE "none"
@@ -362,7 +368,9 @@ FitExc(c, sc) ==
             /\ c.ctx.fixed = c.fit.pos THEN "none"
     ELSE "ValueError"
 ComputeExc(c, sc) ==
-    IF OpOk(c) THEN "none"
+    IF sc = "entryaccepted" /\ \E i \in 1..c.n : c.dims[i].params \in {"EntryNone", "EntryNumber"}
+    THEN "TypeError"                                  \* 'NoneType' object is not callable, at the first evaluation
+    ELSE IF OpOk(c) THEN "none"
     \* deviation: the finiteness check does not look into object-typed containers
     ELSE IF sc = "objectunchecked" /\ c.ctx.container \in {"object", "pandas"} /\ c.op.arg \in NonFiniteArgs
          THEN "none"
